@@ -298,6 +298,26 @@ def run_case(lab, mon, case, rng, messages, noisy, sample=False):
                     mon.check("testcases.scenario_whose_sub_step_did_not_pass_is_not_reported_passed",
                               st_c not in ("passed", "skipped", "untested") and has_problem,
                               lambda: W(feature=f.name, scenario=sn, sub_step=nested, reported_status=st_c, entries=[x["tag"] for x in c["children"]]))
+            # the harness's own call log: a scenario in which a step function WAS called and failed its assertion / raised (sync,
+            # async, async with a timeout) has a test case that says so
+            outcomes_ = case["program"]["outcomes"]
+            bad_calls = {}
+            for sn_, text_ in obs.calls:
+                if outcomes_.get(text_) in ("fail", "error"):
+                    bad_calls.setdefault(sn_, text_)
+            for s_ in f.walk_scenarios():
+                if s_.name in bad_calls and sum(1 for x in f.walk_scenarios() if x.name == s_.name) == 1:
+                    hit = [c for c in cases if norm((c["attrs"].get("name"), None)) == norm((s_.name, None))]
+                    if len(hit) == 1:
+                        c = hit[0]
+                        st_c = c["attrs"].get("status")
+                        has_problem = any(x["tag"] in ("error", "failure") for x in c["children"])
+                        mon.seen("failing_step_function_flavour", case["program"].get("flavour", {}).get(bad_calls[s_.name], "sync") +
+                                 ("_with_timeout" if bad_calls[s_.name][:1] == "a" and int(bad_calls[s_.name].split(" ")[0][1:]) % 2 else ""))
+                        mon.check("testcases.scenario_with_a_step_that_was_called_and_failed_is_not_reported_passed",
+                                  st_c not in ("passed", "skipped", "untested") and has_problem,
+                                  lambda: W(feature=f.name, scenario=s_.name, failing_step=bad_calls[s_.name], reported_status=st_c,
+                                            entries=[x["tag"] for x in c["children"]]))
             for (fn, sn) in cleanup_victim:
                 if fn != f.name:
                     continue
